@@ -7,6 +7,12 @@
 use vstd::prelude::*;
 verus! {
 
+/// std::option::Option::map_or (not specified in vstd): the default for None, the closure's result for Some
+pub assume_specification<T, U, F: FnOnce(T) -> U>[ Option::<T>::map_or ](o: Option<T>, default: U, f: F) -> (r: U)
+    where F: core::marker::Destruct, U: core::marker::Destruct
+    requires o matches Some(x) ==> f.requires((x,)),
+    ensures o is None ==> r == default, o matches Some(x) ==> f.ensures((x,), r);
+
 pub struct ErrBox;
 #[derive(PartialEq, Eq, Structural, Clone, Copy)]
 #[allow(non_camel_case_types)]
@@ -94,6 +100,15 @@ pub struct CdpIter<'a> { pub items: Ghost<Seq<(&'a Rdh, &'a [u8], u64)>>, pub po
 impl<'a> CdpArray<'a> {
     #[verifier::external_body]
     pub fn iter(&self) -> (r: CdpIter<'a>) ensures r.items == self.items, r.pos@ == 0 { unimplemented!() }
+    // further public API of CdpArray (so that a changed body using it stays checkable)
+    #[verifier::external_body]
+    pub fn len(&self) -> (r: usize) ensures r == self.items@.len() { unimplemented!() }
+    #[verifier::external_body]
+    pub fn is_empty(&self) -> (r: bool) ensures r == (self.items@.len() == 0) { unimplemented!() }
+    #[verifier::external_body]
+    pub fn rdh_slice(&self) -> (r: &[Rdh])
+        ensures r@.len() == self.items@.len(), forall|i: int| 0 <= i < r@.len() ==> r@[i] == *(#[trigger] self.items@[i]).0
+    { unimplemented!() }
 }
 impl<'a> Iterator for CdpIter<'a> {
     type Item = (&'a Rdh, &'a [u8], u64);
